@@ -131,7 +131,7 @@ impl Core {
                     .collect::<Vec<_>>()
                     .join(" "),
             },
-            "full" | "probe" | "mask" | "dup" | "join" | "jprobe" => {
+            "full" | "probe" | "mask" | "mprobe" | "dup" | "join" | "jprobe" => {
                 let s = match &self.sess {
                     Some(s) => s,
                     None => return "no-session".into(),
@@ -139,7 +139,7 @@ impl Core {
                 let n = s.stream.len();
                 let sel: Vec<usize> = match cmd {
                     "full" | "probe" => (0..n).collect(),
-                    "mask" => {
+                    "mask" | "mprobe" => {
                         if rest.len() != n || !rest.chars().all(|c| c == '0' || c == '1') {
                             return "bad-op".into();
                         }
@@ -174,7 +174,7 @@ impl Core {
                 let rx = run_rx(s, &sel);
                 // `probe`: the run is judged by the oracle only (inputs in the region of a defect whose
                 // effect depends on third-party library internals: D15 inflate hang, D18 garbage inflate)
-                let obs = if cmd == "probe" || cmd == "jprobe" { "done".to_string() } else { observe(s, &rx) };
+                let obs = if cmd == "probe" || cmd == "jprobe" || cmd == "mprobe" { "done".to_string() } else { observe(s, &rx) };
                 if let Some(p) = &rx.panic {
                     o.fail(&format!("{}:receiver-panic", s.sp.prop), &format!("receiver panics at {}", p));
                     return obs;
@@ -251,6 +251,12 @@ impl Core {
             return;
         }
         for oi in &s.objs {
+            // a panic inside add_object is not a refusal
+            if let Some(e) = &oi.add_err {
+                if e.starts_with("PANIC") {
+                    o.fail("C01:add-object-panic", &format!("add_object panics for object {}: {}", oi.idx, e));
+                }
+            }
             if !oi.created {
                 continue;
             }
@@ -396,6 +402,22 @@ impl Core {
     }
 
     fn oracle_c01(&self, s: &Session, rx: &RxResult, sel: &[usize], o: &mut Oracle) {
+        // on a clean channel push_data has no reason to answer Err - unless a receiver limit binds (F22) or
+        // one of the re-creation findings (D28 no-cache, D29 OBT gc: an object re-created in the middle of a
+        // transfer is interrupted by the close-object packet) or D26 (truncated object) is in play
+        if rx.push_err > 0 {
+            let cache = self.cache_bytes(s);
+            let excused = s.objs.iter().any(|oi| {
+                oi.toi.is_some()
+                    && ((s.sp.w as u128 + 1) * self.max_block_bytes(oi) > cache
+                        || oi.p.cc == "nocache"
+                        || (!s.sp.full && (oi.p.m > 1 || oi.p.car != Car::None))
+                        || self.raptor_lt4_explains(s, oi))
+            });
+            if !excused {
+                o.fail("C01:push-error", &format!("Receiver::push_data answered Err {} times on a clean channel", rx.push_err));
+            }
+        }
         if s.stuck {
             o.fail("C01:sender-stuck", "the sender never finishes its transfers");
             return;
